@@ -2,8 +2,10 @@ package rules
 
 import (
 	"fmt"
+	"go/constant"
 	"go/token"
 	"go/types"
+	"sort"
 	"strings"
 
 	"golang.org/x/tools/go/ssa"
@@ -18,7 +20,7 @@ func init() {
 		Technique: "guard (control-dependence) rules on HashSet.Add/Remove/Exist, error discipline on IBytePool.Set, sibling-predicate agreement between nodePool.validateKey and the Set method of each byte pool newNodePool can install, normaliser agreement of the bucket function, path rules on the node free list (MustPass / ReachAvoiding), dominance of unlink-before-recycle",
 		Meta: core.Meta{
 			Level:       "other",
-			Explanation: "Decides: (a) HashSet.Add reaches nodePool.add and the bucket store only when Full() is false, validateKey(key) returned nil and exist(bucket, key) is false; the bucket head is overwritten only with the node returned by a nodePool.add whose error is nil (a failed add leaves existing chains untouched); (b) the error of IBytePool.Set is not dropped by nodePool.add, and for every pool type newNodePool can install, the key-length relation accepted by validateKey implies the one enforced by that pool's Set (or Set's verdict is honoured); the size validateKey compares with is the pool's MaxElemSize, which reads the same field Set checks; (c) Add, Remove, Exist compute the bucket as hashFunc(key) % uint64(haSize), index ha only with it, and ha is allocated with haSize entries; (d) Remove/Exist validate the key first, Remove calls del only on a non-empty chain and stores del's result; (e) nodePool.add uses the free node only when getFreeNode succeeded, links it in front of head, increments length exactly on the success paths and returns that node, and puts the node back on the free list when it fails after taking it; getFreeNode tests freeNode == -1 before indexing; recyleNode saves the old free head before overwriting it, links the node in front and decrements length; in del every key match unlinks (reads the successor) before recycling the same node and recycles before returning; full() is length >= capacity; nodePool.exist walks from head along array[index].next, reports membership only under compare(key, index) == 0 and absence only at index == -1, and compare reads pool.Get of that node; (f) both pools' Set copy only after the index and length checks; BytePool.Set records the length; NewHashSet rejects elemNum/elemSize <= 0 before allocating. Not covered: free-list and chain manipulation over histories (no aliasing/acyclicity proof), the hash function, equality of stored bytes (bytes.Compare on pool slices).",
+			Explanation: "Decides: (a) HashSet.Add reaches nodePool.add and the bucket store only when Full() is false, validateKey(key) returned nil and exist(bucket, key) is false; the bucket head is overwritten only with the node returned by a nodePool.add whose error is nil (a failed add leaves existing chains untouched); (b) the error of IBytePool.Set is not dropped by nodePool.add, and for every pool type newNodePool can install, the key-length relation accepted by validateKey implies the one enforced by that pool's Set (or Set's verdict is honoured); the size validateKey compares with is the pool's MaxElemSize, which reads the same field Set checks; (c) Add, Remove, Exist compute the bucket as hashFunc(key) % uint64(haSize), index ha only with it, and ha is allocated with haSize entries; (d) Remove/Exist validate the key first, Remove calls del only on a non-empty chain and stores del's result; (e) nodePool.add uses the free node only when getFreeNode succeeded, links it in front of head, increments length exactly on the success paths and returns that node, and puts the node back on the free list when it fails after taking it; getFreeNode tests freeNode == -1 before indexing; recyleNode saves the old free head before overwriting it, links the node in front and decrements length; in del every key match unlinks (reads the successor) before recycling the same node and recycles before returning; full() is length >= capacity; nodePool.exist walks from head along array[index].next, reports membership only under compare(key, index) == 0 and absence only at index == -1, and compare reads pool.Get of that node; (f) both pools' Set copy only after the index and length checks; BytePool.Set records the length; NewHashSet rejects elemNum/elemSize <= 0 before allocating. Refactoring-robust reading: nodePool.add and nodePool.del are read together with their private helpers (unexported, every call site inside them): the node taken from the free list is followed through helper parameters, guards at the single call site of a helper hold inside it, a call that always increments length / always stores the node it is given into freeNode counts as that step, and a failing add must not change length on any path (also not through a callee); the key-match branch of del is recognised in either polarity; nodePool.exist is decided per path with flag variables followed through the phis of the path (for-clause, while-loop with a found flag, single return): true only after a branch that established compare(key, index) == 0 on the walk variable, false only when the last test of the walk variable was index == -1 and it was not advanced since; named booleans and evaluated `a && b` conditions are read through their phi. Not covered: free-list and chain manipulation over histories (no aliasing/acyclicity proof), the hash function, equality of stored bytes (bytes.Compare on pool slices).",
 			RuleText:    "obligations = each guarded call/store of Add/Remove/Exist, each IBytePool.Set call in hash_set, each installable pool type, each bucket computation, each free-list operation, each key match in del, each pool Set copy",
 			Assumptions: []string{"nodes handed out by getFreeNode are not in any chain (free list and chains are disjoint: not decided)"},
 		},
@@ -39,6 +41,10 @@ func init() {
 			{Name: "fixed-pool-length-check-dropped", File: "bfe_util/byte_pool/fixed_byte_pool.go", Old: "	if len(key) != pool.elemSize {\n		return fmt.Errorf(\"length must be %d while %d\", pool.elemSize, len(key))\n	}\n", New: "", Expect: "pool-set-guard|FixedBytePool"},
 			{Name: "exist-skips-head", File: "bfe_util/hash_set/node_pool.go", Old: "	for index := head; index != -1; index = np.array[index].next {\n		if np.compare(key, index) == 0 {\n			return true", New: "	for index := np.array[head].next; index != -1; index = np.array[index].next {\n		if np.compare(key, index) == 0 {\n			return true", Expect: "chain-walk|nodePool.exist:walk"},
 			{Name: "silent-bucket-helper", File: "bfe_util/hash_set/hash_set.go", Old: "	hashNum := set.hashFunc(key) % uint64(set.haSize)\n	return set.exist(hashNum, key)\n}", New: "	hashNum := set.bucketOf(key)\n	return set.exist(hashNum, key)\n}\n\nfunc (set *HashSet) bucketOf(k []byte) uint64 {\n	return set.hashFunc(k) % uint64(set.haSize)\n}", Silent: true},
+			{Name: "silent-add-giveback-helper", File: "bfe_util/hash_set/node_pool.go", Old: "		np.array[node].next = np.freeNode\n		np.freeNode = node\n		return -1, err\n	}\n	np.array[node].next = head\n\n	np.length += 1\n	return node, nil\n}\n", New: "		np.putBack(node)\n		return -1, err\n	}\n	np.length++\n	np.array[node].next = head\n\n	return node, nil\n}\n\nfunc (np *nodePool) putBack(unused int32) {\n	np.array[unused].next = np.freeNode\n	np.freeNode = unused\n}\n", Silent: true},
+			{Name: "silent-del-walk-helper-inverted-match", File: "bfe_util/hash_set/node_pool.go", Old: "	// check at the list\n	pindex := head\n	for {\n		index := np.array[pindex].next\n		if index == -1 {\n			break\n		}\n		if np.compare(key, index) == 0 {\n			np.array[pindex].next = np.array[index].next\n			np.recyleNode(index) //recyle the node\n			return head\n		}\n		pindex = index\n	}\n	return head\n}\n", New: "	np.dropAfter(head, key)\n	return head\n}\n\nfunc (np *nodePool) dropAfter(first int32, k []byte) {\n	prev := first\n	cur := np.array[prev].next\n	for cur != -1 {\n		if np.compare(k, cur) != 0 {\n			prev = cur\n			cur = np.array[prev].next\n			continue\n		}\n		np.array[prev].next = np.array[cur].next\n		np.recyleNode(cur)\n		break\n	}\n}\n", Silent: true},
+			{Name: "silent-exist-found-flag", File: "bfe_util/hash_set/node_pool.go", Old: "	for index := head; index != -1; index = np.array[index].next {\n		if np.compare(key, index) == 0 {\n			return true\n		}\n	}\n	return false\n", New: "	hit := false\n	cur := head\n	for cur != -1 && !hit {\n		if np.compare(key, cur) == 0 {\n			hit = true\n		} else {\n			cur = np.array[cur].next\n		}\n	}\n	return hit\n", Silent: true},
+			{Name: "exist-flag-loop-stops-after-first-node", File: "bfe_util/hash_set/node_pool.go", Old: "	for index := head; index != -1; index = np.array[index].next {\n		if np.compare(key, index) == 0 {\n			return true\n		}\n	}\n	return false\n", New: "	hit := false\n	cur := head\n	for cur != -1 && !hit {\n		if np.compare(key, cur) == 0 {\n			hit = true\n		} else {\n			break\n		}\n	}\n	return hit\n", Expect: "chain-walk|nodePool.exist"},
 			{Name: "set-error-dropped-again", File: "bfe_util/hash_set/node_pool.go", Old: "	if err := np.pool.Set(node, key); err != nil {\n		// the pool refused the key: give the node back, nothing was added\n		np.array[node].next = np.freeNode\n		np.freeNode = node\n		return -1, err\n	}\n	np.array[node].next = head\n", New: "	np.array[node].next = head\n	np.pool.Set(node, key)\n", Expect: "set-error|nodePool.add"},
 			{Name: "failed-set-leaks-node", File: "bfe_util/hash_set/node_pool.go", Old: "		np.array[node].next = np.freeNode\n		np.freeNode = node\n		return -1, err\n", New: "		np.length += 1\n		return -1, err\n", Expect: "length|nodePool.add:failure"},
 			{Name: "failed-set-keeps-node", File: "bfe_util/hash_set/node_pool.go", Old: "		np.array[node].next = np.freeNode\n		np.freeNode = node\n		return -1, err\n", New: "		return -1, err\n", Expect: "free-list|nodePool.add:failure"},
@@ -507,7 +513,8 @@ func runC20(c *core.Ctx) {
 	c.Min("pool-set-guard", 4)
 
 	// ---------------------------------------------------------------- (e) node pool
-	{ // add
+	{ // add (with its private helpers: the region of nodePool.add)
+		reg := uuRegionOf(p, npAdd)
 		var gf *ssa.Call
 		for _, ci := range uuCallsIn(npAdd, kGetFree) {
 			if v, ok := ci.(*ssa.Call); ok {
@@ -517,21 +524,23 @@ func runC20(c *core.Ctx) {
 		if gf == nil {
 			c.Missing("nodePool.add: call of getFreeNode")
 		} else {
-			isNode := func(v ssa.Value) bool { return uuExtractOf(v, gf, 0) }
+			isNodeVal := func(v ssa.Value) bool { return uuExtractOf(v, gf, 0) }
+			// the node taken from the free list, also when it reaches a private helper through a parameter
+			isNode := func(v ssa.Value) bool { return reg.all(v, isNodeVal) }
 			errNil := func(b *ssa.BasicBlock) bool {
-				return uuHasRel(b, func(r uuRel) bool {
+				return uuHasRelCtx(p, b, func(r uuRel) bool {
 					return uuNilTest(r, true, func(v ssa.Value) bool { return uuExtractOf(v, gf, 1) })
 				})
 			}
 			okUse, linked := true, false
-			for _, in := range uuInstrs(npAdd) {
+			for _, in := range reg.instrs() {
 				switch v := in.(type) {
 				case *ssa.IndexAddr:
 					if isNode(v.Index) && !errNil(v.Block()) {
 						okUse = false
 					}
 				case *ssa.Store:
-					if idx, isNext := nextOf(v.Addr); isNext && isNode(idx) && uuResolve(v.Val) == ssa.Value(npAdd.Params[1]) {
+					if idx, isNext := nextOf(v.Addr); isNext && isNode(idx) && reg.all(v.Val, func(o ssa.Value) bool { return o == ssa.Value(npAdd.Params[1]) }) {
 						linked = true
 					}
 				case ssa.CallInstruction:
@@ -540,26 +549,75 @@ func runC20(c *core.Ctx) {
 						if !errNil(in.Block()) {
 							okUse = false
 						}
-						c.Check("node-link", "nodePool.add:set-args", in.Pos(), len(a) == 2 && isNode(a[0]) && uuResolve(a[1]) == ssa.Value(npAdd.Params[2]), "nodePool.add must store the key being added into the slot of the node taken from the free list; it calls Set("+core.Render(a[0])+", "+core.Render(a[len(a)-1])+")")
+						c.Check("node-link", "nodePool.add:set-args", in.Pos(), len(a) == 2 && isNode(a[0]) && reg.all(a[1], func(o ssa.Value) bool { return o == ssa.Value(npAdd.Params[2]) }), "nodePool.add must store the key being added into the slot of the node taken from the free list; it calls Set("+core.Render(a[0])+", "+core.Render(a[len(a)-1])+")")
 					}
 				}
 			}
 			c.Check("node-link", "nodePool.add:free-node-error", gf.Pos(), okUse, "nodePool.add uses the node returned by getFreeNode although its error was not tested to be nil (the node is -1 then)")
 			c.Check("node-link", "nodePool.add:linked-before-head", gf.Pos(), linked, "nodePool.add does not link the new node in front of the old head (array[node].next = head): the rest of the chain would be lost")
-			isInc := func(in ssa.Instruction) bool {
+			isLenStore := func(in ssa.Instruction) bool {
 				st, ok := in.(*ssa.Store)
 				if !ok {
 					return false
 				}
-				if f, _ := uuFieldAddr(st.Addr); f != lenFld {
+				f, _ := uuFieldAddr(st.Addr)
+				return f == lenFld
+			}
+			isInc := func(in ssa.Instruction) bool {
+				st, ok := in.(*ssa.Store)
+				if !ok || !isLenStore(in) {
 					return false
 				}
 				b, ok := st.Val.(*ssa.BinOp)
-				if !ok || b.Op != token.ADD || !isField(b.X, lenFld) {
+				if !ok || b.Op != token.ADD {
 					return false
 				}
-				k, isK := uuConstInt(b.Y)
-				return isK && k == 1
+				if isField(b.X, lenFld) {
+					k, isK := uuConstInt(b.Y)
+					return isK && k == 1
+				}
+				k, isK := uuConstInt(b.X)
+				return isK && k == 1 && isField(b.Y, lenFld)
+			}
+			// an increment / a write of length may sit in a helper: a call that
+			// always increments counts as the increment, a call that may write
+			// length counts as a write
+			incMust, incMay := core.LiftMust(isInc, 2), core.LiftMay(isInc, 2)
+			lenMay := core.LiftMay(isLenStore, 2)
+			// giving the node back: freeNode = node, here or in a callee that
+			// always stores the parameter it receives the node in
+			storesFree := func(in ssa.Instruction, isN func(ssa.Value) bool) bool {
+				st, ok := in.(*ssa.Store)
+				if !ok {
+					return false
+				}
+				f, _ := uuFieldAddr(st.Addr)
+				return f == freeFld && isN(st.Val)
+			}
+			giveBack := func(in ssa.Instruction) bool {
+				if storesFree(in, isNode) {
+					return true
+				}
+				ci, ok := in.(*ssa.Call)
+				if !ok {
+					return false
+				}
+				sc := ci.Call.StaticCallee()
+				if sc == nil || sc.Blocks == nil || core.FuncPkgRel(sc) != c20pkg {
+					return false
+				}
+				for i, a := range ci.Call.Args {
+					if i >= len(sc.Params) || !isNode(a) {
+						continue
+					}
+					prm := ssa.Value(sc.Params[i])
+					if core.AlwaysPasses(sc, func(x ssa.Instruction) bool {
+						return storesFree(x, func(v ssa.Value) bool { return uuResolve(v) == prm })
+					}, 1) {
+						return true
+					}
+				}
+				return false
 			}
 			nOK := 0
 			for i, r := range core.Returns(npAdd) {
@@ -567,12 +625,13 @@ func runC20(c *core.Ctx) {
 				if len(rv) != 2 {
 					continue
 				}
+				isR := func(x ssa.Instruction) bool { return x == ssa.Instruction(r) }
 				if uuIsNil(rv[1]) {
 					nOK++
-					missing := core.ReachAvoiding(npAdd, nil, isInc, func(in ssa.Instruction) bool { return in == ssa.Instruction(r) })
+					missing := core.ReachAvoiding(npAdd, nil, incMust, isR)
 					twice := false
 					for _, in := range uuInstrs(npAdd) {
-						if isInc(in) && core.ReachAvoiding(npAdd, in, nil, isInc) != nil {
+						if incMay(in) && core.ReachAvoiding(npAdd, in, nil, incMay) != nil {
 							twice = true
 						}
 					}
@@ -580,22 +639,14 @@ func runC20(c *core.Ctx) {
 				} else {
 					after := false
 					for _, in := range uuInstrs(npAdd) {
-						if isInc(in) && core.ReachAvoiding(npAdd, in, nil, func(x ssa.Instruction) bool { return x == ssa.Instruction(r) }) != nil {
+						if lenMay(in) && core.ReachAvoiding(npAdd, in, nil, isR) != nil {
 							after = true
 						}
 					}
-					c.Check("length", fmt.Sprintf("nodePool.add:failure#%d", i+1), r.Pos(), !after, "nodePool.add returns an error after length was already incremented")
+					c.Check("length", fmt.Sprintf("nodePool.add:failure#%d", i+1), r.Pos(), !after, "nodePool.add returns an error on a path that changes length (nothing was added: Len() must stay what it was)")
 					if errNil(r.Block()) {
 						// the node was already taken from the free list: it must go back
-						giveBack := func(in ssa.Instruction) bool {
-							st, ok := in.(*ssa.Store)
-							if !ok {
-								return false
-							}
-							f, _ := uuFieldAddr(st.Addr)
-							return f == freeFld && isNode(st.Val)
-						}
-						leak := core.ReachAvoiding(npAdd, gf, giveBack, func(x ssa.Instruction) bool { return x == ssa.Instruction(r) })
+						leak := core.ReachAvoiding(npAdd, gf, giveBack, isR)
 						c.Check("free-list", fmt.Sprintf("nodePool.add:failure#%d:node-returned", i+1), r.Pos(), leak == nil, "nodePool.add fails after it took a node from the free list and does not put it back (freeNode = node): every failed Add would shrink the usable capacity")
 					}
 				}
@@ -661,101 +712,110 @@ func runC20(c *core.Ctx) {
 		c.Check("free-list", "nodePool.recyleNode:push", npRecycle.Pos(), order, "recyleNode must read the old free head before overwriting freeNode with the recycled node and store that old head into array[node].next; otherwise the node points at itself and the rest of the free list is lost")
 		c.Check("length", "nodePool.recyleNode:decrement", npRecycle.Pos(), lenStore != nil, "recyleNode does not decrement length by one: Len()/Full() drift from the number of members")
 	}
-	{ // del: every key match unlinks, then recycles that node, then returns
+	{ // del (and its private helpers): every key match unlinks, then recycles that node, then returns
 		n := 0
-		for _, ci := range uuCallsIn(npDel, kCompare) {
-			cmp, ok := ci.(*ssa.Call)
-			if !ok {
-				continue
-			}
-			node := uuResolve(cmp.Call.Args[2])
-			// the branch on compare(...) == 0
-			var match *ssa.BasicBlock
-			if refs := cmp.Referrers(); refs != nil {
-				for _, r := range *refs {
-					b, isB := r.(*ssa.BinOp)
-					if !isB || b.Referrers() == nil {
+		for _, g := range p.Region(npDel) {
+			for _, ci := range uuCallsIn(g, kCompare) {
+				cmp, ok := ci.(*ssa.Call)
+				if !ok {
+					continue
+				}
+				node := uuResolve(cmp.Call.Args[2])
+				// the branch edges on which compare(...) == 0 holds
+				var matches []*ssa.BasicBlock
+				for _, blk := range g.Blocks {
+					ifi, isIf := blk.Instrs[len(blk.Instrs)-1].(*ssa.If)
+					if !isIf || len(blk.Succs) != 2 || blk.Succs[0] == blk.Succs[1] {
 						continue
 					}
-					k, isK := uuConstInt(b.Y)
-					if !isK || k != 0 {
-						continue
-					}
-					for _, rr := range *b.Referrers() {
-						if ifi, isIf := rr.(*ssa.If); isIf {
-							switch b.Op {
-							case token.EQL:
-								match = ifi.Block().Succs[0]
-							case token.NEQ:
-								match = ifi.Block().Succs[1]
-							}
+					for i, pol := range []bool{true, false} {
+						rel, isRel := uuRelOf(ifi.Cond, pol)
+						if !isRel || rel.Op != token.EQL {
+							continue
+						}
+						x, y := rel.X, rel.Y
+						if uuConstIs(x, 0) {
+							x, y = y, x
+						}
+						if uuConstIs(y, 0) && uuResolve(x) == ssa.Value(cmp) {
+							matches = append(matches, blk.Succs[i])
 						}
 					}
 				}
-			}
-			n++
-			key := fmt.Sprintf("nodePool.del:match#%d", n)
-			if match == nil {
-				c.Check("del-match", key, cmp.Pos(), false, "the result of compare(key, node) in del is not branched on with == 0 / != 0")
-				continue
-			}
-			first := match.Instrs[0]
-			isRecycle := func(in ssa.Instruction) bool {
-				ci, ok := in.(ssa.CallInstruction)
-				return ok && core.CallIs(ci.Common(), kRecycle) && uuResolve(ci.Common().Args[1]) == node
-			}
-			var bad ssa.Instruction
-			if isRecycle(first) {
-				bad = nil
-			} else if core.IsReturn(first) {
-				bad = first
-			} else {
-				bad = core.MustPass(npDel, first, isRecycle)
-			}
-			// unlink first: a read of array[node].next happens in the match region before the recycle
-			unlinked := false
-			for _, in := range uuInstrs(npDel) {
-				u, isU := in.(*ssa.UnOp)
-				if !isU || u.Op != token.MUL {
+				n++
+				key := fmt.Sprintf("nodePool.del:match#%d", n)
+				if len(matches) == 0 {
+					c.Check("del-match", key, cmp.Pos(), false, "the result of compare(key, node) in del is not branched on with == 0 / != 0")
 					continue
 				}
-				idx, isNext := nextOf(u.X)
-				if !isNext || uuResolve(idx) != node || !(u.Block() == match || match.Dominates(u.Block())) {
-					continue
+				isRecycle := func(in ssa.Instruction) bool {
+					ci, ok := in.(ssa.CallInstruction)
+					return ok && core.CallIs(ci.Common(), kRecycle) && uuResolve(ci.Common().Args[1]) == node
 				}
-				for _, rc := range uuInstrs(npDel) {
-					if isRecycle(rc) && core.Dominates(u, rc) {
-						unlinked = true
+				var why []string
+				for _, match := range matches {
+					first := match.Instrs[0]
+					var bad ssa.Instruction
+					if isRecycle(first) {
+						bad = nil
+					} else if core.IsReturn(first) {
+						bad = first
+					} else {
+						bad = core.MustPass(g, first, isRecycle)
+					}
+					// unlink first: a read of array[node].next happens in the match region before the recycle
+					unlinked := false
+					for _, in := range uuInstrs(g) {
+						u, isU := in.(*ssa.UnOp)
+						if !isU || u.Op != token.MUL {
+							continue
+						}
+						idx, isNext := nextOf(u.X)
+						if !isNext || uuResolve(idx) != node || !(u.Block() == match || match.Dominates(u.Block())) {
+							continue
+						}
+						for _, rc := range uuInstrs(g) {
+							if isRecycle(rc) && core.Dominates(u, rc) {
+								unlinked = true
+							}
+						}
+					}
+					if bad != nil {
+						why = append(why, "a path from the match to a return does not recycle the matched node (the node leaks: length and the free list no longer add up to capacity)")
+					}
+					if !unlinked {
+						why = append(why, "array[node].next is not read before recyleNode(node) overwrites it (the chain would continue into the free list)")
 					}
 				}
+				c.Check("del-match", key, cmp.Pos(), len(why) == 0, strings.Join(why, "; "))
 			}
-			var why []string
-			if bad != nil {
-				why = append(why, "a path from the match to a return does not recycle the matched node (the node leaks: length and the free list no longer add up to capacity)")
-			}
-			if !unlinked {
-				why = append(why, "array[node].next is not read before recyleNode(node) overwrites it (the chain would continue into the free list)")
-			}
-			c.Check("del-match", key, cmp.Pos(), bad == nil && unlinked, strings.Join(why, "; "))
 		}
 		c.Min("del-match", 2)
 	}
 	if npExist := get(c20pkg, "nodePool.exist"); npExist != nil { // membership walk
-		var idx *ssa.Phi
+		// the walk variable: the phi web compare's node argument belongs to. It
+		// is entered only with head and with array[<web>].next (for-clause,
+		// while-style loop with a found flag, continue/else forms alike).
+		var web map[ssa.Value]bool
 		cmps := uuCallsIn(npExist, kCompare)
 		okWalk, detail := false, "nodePool.exist does not compare the key with a loop variable that starts at head and follows array[index].next"
+		isCmpOfWeb := func(v ssa.Value) bool {
+			call := uuStaticCall(v, kCompare)
+			return call != nil && web[call.Call.Args[2]] && uuResolve(call.Call.Args[1]) == ssa.Value(npExist.Params[2])
+		}
 		if len(cmps) == 1 {
 			cmp := cmps[0].(*ssa.Call)
-			if phi, isPhi := cmp.Call.Args[2].(*ssa.Phi); isPhi && uuResolve(cmp.Call.Args[1]) == ssa.Value(npExist.Params[2]) {
-				idx = phi
+			if _, isPhi := cmp.Call.Args[2].(*ssa.Phi); isPhi && uuResolve(cmp.Call.Args[1]) == ssa.Value(npExist.Params[2]) {
+				var leaves []ssa.Value
+				web, leaves = uuPhiWeb(cmp.Call.Args[2])
 				fromHead, follows, other := false, false, false
-				for _, e := range phi.Edges {
+				for _, e := range leaves {
 					switch {
 					case uuResolve(e) == ssa.Value(npExist.Params[1]):
 						fromHead = true
 					default:
 						if u, isU := uuResolve(e).(*ssa.UnOp); isU && u.Op == token.MUL {
-							if i, isNext := nextOf(u.X); isNext && i == ssa.Value(phi) {
+							if i, isNext := nextOf(u.X); isNext && web[i] {
 								follows = true
 								continue
 							}
@@ -767,28 +827,93 @@ func runC20(c *core.Ctx) {
 			}
 		}
 		c.Check("chain-walk", "nodePool.exist:walk", npExist.Pos(), okWalk, detail+": members of the bucket's chain would be skipped")
-		n := 0
-		for _, r := range core.Returns(npExist) {
-			v, isK := uuConstBool(r.Results[0])
-			if !isK {
-				n++
-				c.Check("chain-walk", fmt.Sprintf("nodePool.exist:return#%d", n), r.Pos(), false, "nodePool.exist returns a computed boolean the rule cannot classify")
-				continue
+		// what is returned, per path (a result carried in a flag variable is
+		// followed through the phis of the path): true only after a branch that
+		// established compare(key, index) == 0, false only when the last test of
+		// the walk variable was index == -1 and the variable was not advanced since
+		retIdx := uuRetIndex(npExist)
+		type existVerdict struct {
+			found, absent, computed bool
+			foundBad, absentBad     string
+		}
+		verdicts := map[*ssa.Return]*existVerdict{}
+		complete := core.EnumPaths(npExist, 2, 4000, func(pt *core.Path) {
+			r, isRet := pt.Last().(*ssa.Return)
+			if !isRet || len(r.Results) != 1 {
+				return
 			}
-			n++
-			if v {
-				ok := idx != nil && uuHasRel(r.Block(), func(rel uuRel) bool {
-					k, isK := uuConstInt(rel.Y)
-					call := uuStaticCall(rel.X, kCompare)
-					return rel.Op == token.EQL && isK && k == 0 && call != nil && call.Call.Args[2] == ssa.Value(idx)
-				})
-				c.Check("chain-walk", fmt.Sprintf("nodePool.exist:found#%d", n), r.Pos(), ok, "nodePool.exist reports membership although compare(key, index) == 0 is not established")
-			} else {
-				ok := idx != nil && uuHasRel(r.Block(), func(rel uuRel) bool {
-					k, isK := uuConstInt(rel.Y)
-					return rel.Op == token.EQL && isK && k == -1 && rel.X == ssa.Value(idx)
-				})
-				c.Check("chain-walk", fmt.Sprintf("nodePool.exist:absent#%d", n), r.Pos(), ok, "nodePool.exist reports absence although the end of the chain (index == -1) was not reached")
+			v := verdicts[r]
+			if v == nil {
+				v = &existVerdict{}
+				verdicts[r] = v
+			}
+			val := uuEvalConst(r.Results[0], uuPathConsts(pt))
+			rels := uuPathRels(pt)
+			switch {
+			case val == nil:
+				// a comparison returned directly (`return compare(...) == 0`) holds where true is returned
+				if rel, isRel := uuRelOf(r.Results[0], true); isRel && web != nil && rel.Op == token.EQL && uuConstIs(rel.Y, 0) && isCmpOfWeb(rel.X) {
+					v.found = true
+				} else {
+					v.computed = true
+				}
+			case val.Kind() == constant.Bool && constant.BoolVal(val):
+				v.found = true
+				ok := false
+				for _, pr := range rels {
+					rel := pr.rel
+					if uuConstIs(rel.X, 0) {
+						rel = uuRel{uuFlip(rel.Op), rel.Y, rel.X}
+					}
+					if web != nil && rel.Op == token.EQL && uuConstIs(rel.Y, 0) && isCmpOfWeb(rel.X) {
+						ok = true
+					}
+				}
+				if !ok && v.foundBad == "" {
+					v.foundBad = "[" + c22pathSig(pt) + "]"
+				}
+			default:
+				v.absent = true
+				// the last test of the walk variable against -1 on the path
+				last, lastAt := token.ILLEGAL, -1
+				for _, pr := range rels {
+					rel := pr.rel
+					if uuConstIs(rel.X, -1) {
+						rel = uuRel{uuFlip(rel.Op), rel.Y, rel.X}
+					}
+					if web != nil && uuConstIs(rel.Y, -1) && web[rel.X] {
+						last, lastAt = rel.Op, pr.at
+					}
+				}
+				ok := last == token.EQL
+				for i := lastAt + 1; ok && i < len(pt.Blocks); i++ {
+					for _, in := range pt.Blocks[i].Instrs {
+						if phi, isPhi := in.(*ssa.Phi); isPhi && web[phi] {
+							ok = false // the variable was advanced after the test
+						}
+					}
+				}
+				if !ok && v.absentBad == "" {
+					v.absentBad = "[" + c22pathSig(pt) + "]"
+				}
+			}
+		})
+		c.Check("chain-walk", "nodePool.exist:paths", npExist.Pos(), complete, "path enumeration of nodePool.exist is incomplete: undecided")
+		var rets []*ssa.Return
+		for r := range verdicts {
+			rets = append(rets, r)
+		}
+		sort.Slice(rets, func(i, j int) bool { return retIdx[rets[i]] < retIdx[rets[j]] })
+		for _, r := range rets {
+			v, n := verdicts[r], retIdx[r]
+			if v.computed {
+				c.Check("chain-walk", fmt.Sprintf("nodePool.exist:return#%d", n), r.Pos(), false, "nodePool.exist returns a computed boolean the rule cannot classify")
+			}
+			if v.found {
+				c.Check("chain-walk", fmt.Sprintf("nodePool.exist:found#%d", n), r.Pos(), v.foundBad == "", "nodePool.exist reports membership although compare(key, index) == 0 is not established on the path "+v.foundBad)
+			}
+			if v.absent {
+				c.Check("chain-walk", fmt.Sprintf("nodePool.exist:absent#%d", n), r.Pos(), v.absentBad == "", "nodePool.exist reports absence although the end of the chain (index == -1) was not reached on the path "+v.absentBad)
 			}
 		}
 		// HashSet.exist walks the chain of the bucket it was given, with the key it was given
